@@ -26,9 +26,9 @@ TIERS = {
 }
 
 RULE = ("first, bounded-exhaustively: every history of length <= 3 (quick) / <= 4 (thorough) over "
-        "the alphabet {create(f2003), create(f2008), 4 fixed valid, 4 fixed invalid programs}, "
-        "each followed by create(s); parse(x) for both standards and 3 fixed probe programs "
-        "(1110 / 11110 runs, enumerated by run index); then, for the rest of the budget, one "
+        "the alphabet {create(f2003), create(f2008), 5 fixed valid, 5 fixed invalid programs}, "
+        "each followed by create(s); parse(x) for both standards and 4 fixed probe programs "
+        "(1884 / 22620 runs, enumerated by run index); then, for the rest of the budget, one "
         "run = one seeded history of <=12 operations over {create(f2003|f2008|None|invalid), "
         "parse(valid_i|invalid_j, reader options, reader kind, stream fault at line k), direct "
         "rule use, fparser1 api.parse, print of an earlier tree, edit of an earlier tree, memo "
@@ -90,6 +90,20 @@ def _program(st, sw, std, cfg, tag, force=None):
     return rend.text, stmts
 
 
+# Lines whose presence makes a parse fail through one particular exit of the parser each.
+INJECT = [
+    "y = sin(1.0, 2.0)",          # InternalSyntaxError (intrinsic with wrong argument count)
+    "x = 1 +",                    # NoMatchError from deep inside
+    "end do nosuchname",          # FortranSyntaxError raised in BlockBase.match
+    "real } x",                   # InternalError (Kind_Selector)
+    "dangling:",                  # sys.exit from the reader
+    "x = (/ 1, /)",
+    "if (x) then",                # construct never closed
+    "end subroutine nosuchname",
+    "integer :: 1bad",
+    "call s(,)",
+]
+
 TINY = [
     "x = sin(y)\nend\n", "x = 1\ndo i = 1, 2\nend do foo\nend\n", "program p\nend program p\n",
     "program p\ncontains\nsubroutine s\nend subroutine t\nend program p\n",
@@ -102,6 +116,95 @@ TINY = [
 
 
 # ---- bounded-exhaustive part: every history over a small fixed alphabet ----------------
+# One program, valid under both standards, that walks through as many statement and construct
+# classes as possible (in particular those Fortran2008 overrides: IF, ALLOCATE, OPEN, STOP,
+# type declarations, DO terminators): state keyed by class that survives create() shows here.
+KITCHEN_SINK = """module ks_m
+implicit none
+integer, parameter :: ip = 4
+type :: pt
+real :: cx, cy
+end type pt
+interface gen
+module procedure g1
+end interface gen
+contains
+subroutine g1(u)
+real, intent(in) :: u
+real, allocatable :: w(:)
+real :: a(10), mat(3, 3), x
+integer :: i, j, n
+character(len=20) :: c1
+logical :: flag
+type(pt) :: pnt
+namelist /nl/ i, j
+common /blk/ x
+n = 3
+allocate(w(0:n), stat=i)
+do 10 i = 1, 3
+10 if (i > 1) a(i) = i
+do 20 i = 1, 3
+20 allocate(w(i))
+do 30 i = 1, 3
+30 open(10, file='x.dat')
+do 40 i = 1, 3
+do 40 j = 1, 3
+40 mat(i, j) = 0.0
+do 50 i = 1, 3
+a(i) = sin(u) + max(1.0, u)
+50 continue
+lp: do i = 1, n
+if (a(i) < 0.0) cycle lp
+if (a(i) > 9.0) then
+exit lp
+else if (flag) then
+a(i) = 1.0
+else
+a(i) = 2.0
+end if
+end do lp
+do while (x > 0.0)
+x = x - 1.0
+end do
+select case (i)
+case (1)
+x = 1.0
+case (2:3)
+x = 2.0
+case default
+x = 0.0
+end select
+where (a > 0.0)
+a = sqrt(a)
+elsewhere
+a = 0.0
+end where
+forall (i = 1:n) a(i) = i
+associate (v => x + 1.0)
+x = v
+end associate
+pnt%cx = pnt%cy + a(2)
+write(*, '(a, i3)') 'n =', n
+read(5, *, iostat=i) x
+open(unit=11, file=c1, status='old', iostat=i)
+close(11)
+inquire(file='f.dat', exist=flag)
+print *, c1(2:4) // 'abc', [1.0, 2.0]
+if (flag) stop 1
+deallocate(w, stat=i)
+call g1(x)
+return
+end subroutine g1
+end module ks_m
+program ks_p
+use ks_m
+real :: y
+y = cos(1.0)
+call g1(y)
+stop
+end program ks_p
+"""
+
 ALPHABET_POOL = {
     "V1": "module m\nreal :: sin(3)\ncontains\nsubroutine s\nx = sin(1)\nend subroutine s\n"
           "end module m\n",
@@ -114,12 +217,15 @@ ALPHABET_POOL = {
     "I2": "program p\ncontains\nsubroutine s\nend subroutine t\nend program p\n",
     "I3": "module m\ninteger :: sin\nend module q\n",
     "I4": "subroutine s\nreal :: cos(2)\nx = cos(1) +\nend subroutine s\n",
+    "I5": "subroutine s\nreal :: max(3)\ny = sin(1.0, 2.0)\nend subroutine s\n",
+    "V5": KITCHEN_SINK,
+    "X4": KITCHEN_SINK,
     "X1": "x = sin(y) + cos(y)\nend\n",
     "X2": "module m\ncontains\nsubroutine s\nx = sin(1) + cos(2) + max(1, 2)\n"
           "end subroutine s\nend module m\n",
     "X3": "program p\nx = max(1, 2)\nblock\ny = 1\nend block\nend program p\n",
 }
-ALPHABET = ["c03", "c08", "V1", "V2", "V3", "V4", "I1", "I2", "I3", "I4"]
+ALPHABET = ["c03", "c08", "V1", "V2", "V3", "V4", "V5", "I1", "I2", "I3", "I4", "I5"]
 
 
 def exhaustive_count(max_len):
@@ -151,7 +257,7 @@ def _exhaustive_case(index):
         else:
             ops.append(["parse", sym, plain, "string", None])
     for std in ("f2003", "f2008"):
-        for x in ("X1", "X2", "X3"):
+        for x in ("X1", "X2", "X3", "X4"):
             ops.append(["create", std])
             ops.append(["parse", x, plain, "string", None])
     return {"prop": ID, "pool": dict(ALPHABET_POOL), "ops": ops, "exhaustive_index": index,
@@ -186,6 +292,14 @@ def generate(run_seed, cfg):
         pool["v%d" % k] = text
         # an invalid sibling, biased to fail while scopes are open
         data = text.encode()
+        if sw.random() < 0.45:
+            # inject one failure-path line at a random position inside the program
+            tl = text.split("\n")
+            pos = sw.randrange(1, max(2, len(tl) - 1))
+            if not tl[pos - 1].split("!")[0].rstrip().endswith("&"):
+                tl.insert(pos, "   " + sw.choice(INJECT))
+                pool["i%d" % k] = "\n".join(tl)
+                continue
         for _ in range(sw.randrange(1, 3)):
             m = damage.gen_mutation(fr, data.decode("utf-8", "surrogateescape"),
                                     classes=sw.choice([["struct"], ["struct", "token"],
